@@ -30,6 +30,7 @@ package main
 
 import (
 	"bufio"
+	"strings"
 	"encoding/json"
 	"flag"
 	"fmt"
@@ -65,9 +66,11 @@ type Obs struct {
 	Result   string         `json:"result"`
 	Changed  bool           `json:"changed"`        // any row of any table differs (fingerprint)
 	TChanged bool           `json:"target_changed"` // the entity's presence or modify index differs
+	PayloadEqual bool       `json:"payload_equal,omitempty"` // rpc targets: the submitted content/status equal the stored row's
 	Effect   string         `json:"effect,omitempty"`
 	Oracle   string         `json:"oracle"`
 	Sig      map[string]any `json:"sig,omitempty"`
+	nocoq    bool
 }
 
 type CStep struct {
@@ -79,7 +82,8 @@ type CStep struct {
 type Case struct {
 	ID     int    `json:"id"`
 	Family string `json:"family"`
-	Mode   string `json:"mode"` // cross | random
+	Mode   string `json:"mode"` // cross | random | txn-shape
+	NoCoq  bool   `json:"nocoq,omitempty"`
 	// store family (shapes of harness/store)
 	Cmds    []Cmd `json:"cmds,omitempty"`
 	Results []Res `json:"results,omitempty"`
@@ -102,6 +106,7 @@ type run struct {
 	perStep  bool // record the dump after every cas-family command
 	lastSRes Res
 	lastCRes CRes
+	payloadEqual bool // set by the rpc targets' cond
 }
 
 func newRun(rng *rand.Rand, family string, perStep bool) *run {
@@ -182,7 +187,13 @@ type target struct {
 	family   string
 	kind     string
 	txn      bool // the command is a transaction with a trailing unconditional write
+	batch    bool // the command carries a second, unrelated write that legitimately changes the store
+	nocoq    bool // outside the models' vocabulary (mixed-case names): judged by the oracle only
 	payloads []string
+	// remove deletes the entity with an unconditional command (pre-state "deleted"); nil for singletons.
+	remove func(b *run)
+	// sibling writes ANOTHER entity of the same table (index class "sibling": the table's newest index).
+	sibling func(b *run)
 	// setup builds the pre-state with unconditional commands and returns an index the entity carried
 	// earlier (0 when there is none).
 	setup func(b *run, pre, payload string) uint64
@@ -258,7 +269,9 @@ func kvTargets() []target {
 		return ""
 	}
 	trailer := TxnOp{Kind: "kv", Verb: "set", KV: kvq("t", 9, 0)}
-	return []target{
+	kvRemove := func(b *run) { b.s(Cmd{Kind: "kvs", Verb: "delete", KV: kvq("a", 0, 0)}) }
+	kvSibling := func(b *run) { b.s(Cmd{Kind: "kvs", Verb: "set", KV: kvq("b", byte(2+b.rng.Intn(3)), 0)}) }
+	ts := []target{
 		{name: "kv-cas", family: "store", kind: "upsert", payloads: []string{"same", "different"}, setup: setup, cur: cur, reflects: refl,
 			cond: func(b *run, sup uint64, p string) {
 				want = val(b, p)
@@ -276,6 +289,10 @@ func kvTargets() []target {
 				b.s(Cmd{Kind: "txn", Ops: []TxnOp{{Kind: "kv", Verb: "delete-cas", KV: kvq("a", 0, sup)}, trailer}})
 			}},
 	}
+	for i := range ts {
+		ts[i].remove, ts[i].sibling = kvRemove, kvSibling
+	}
+	return ts
 }
 
 func catalogTargets() []target {
@@ -371,7 +388,7 @@ func catalogTargets() []target {
 		return false, 0
 	}
 	var wantOut string
-	return []target{
+	ts := []target{
 		{txn: true, name: "txn-node-cas", family: "store", kind: "upsert", payloads: []string{"same", "different", "invalid"}, setup: nodeSetup, cur: nodeCur,
 			cond: func(b *run, sup uint64, p string) {
 				wantAddr = 9
@@ -465,13 +482,66 @@ func catalogTargets() []target {
 				}
 				return ""
 			}},
+		// the name differs only in case from the stored one: the store folds node names
+		{txn: true, nocoq: true, name: "txn-node-cas/mixed-case", family: "store", kind: "upsert", payloads: []string{"same", "different"}, setup: nodeSetup, cur: nodeCur,
+			cond: func(b *run, sup uint64, p string) {
+				wantAddr = 9
+				_, n, _ := b.im.store().GetNode("n1", nil, "")
+				if n != nil && p == "same" {
+					wantAddr = addrNum(n.Address)
+				}
+				b.s(Cmd{Kind: "txn", Ops: []TxnOp{{Kind: "node", Verb: "cas", Node: "N1", ID: id1, Addr: wantAddr, Index: sup}, trailer}})
+			},
+			reflects: func(b *run, p string) string {
+				_, n, _ := b.im.store().GetNode("n1", nil, "")
+				if n == nil || addrNum(n.Address) != wantAddr {
+					return "node n1 does not carry the requested address"
+				}
+				return ""
+			}},
+		// a cas on the NAME n3 carrying the ID of node n1: the condition is about n3, the write renames n1
+		{txn: true, name: "txn-node-cas/foreign-id", family: "store", kind: "upsert", payloads: []string{"different"}, setup: nodeSetup,
+			cur: func(b *run) (bool, uint64) {
+				_, n, _ := b.im.store().GetNode("n3", nil, "")
+				if n != nil {
+					return true, n.ModifyIndex
+				}
+				return false, 0
+			},
+			cond: func(b *run, sup uint64, p string) {
+				wantAddr = 9
+				if _, n, _ := b.im.store().GetNode("n3", nil, ""); n != nil && addrNum(n.Address) == 9 {
+					wantAddr = 8
+				}
+				b.s(Cmd{Kind: "txn", Ops: []TxnOp{{Kind: "node", Verb: "cas", Node: "n3", ID: id1, Addr: wantAddr, Index: sup}, trailer}})
+			},
+			reflects: func(b *run, p string) string {
+				_, n, _ := b.im.store().GetNode("n3", nil, "")
+				if n == nil || addrNum(n.Address) != wantAddr {
+					return "node n3 does not carry the requested address"
+				}
+				return ""
+			}},
 	}
+	for i := range ts {
+		t := &ts[i]
+		t.sibling = func(b *run) { b.s(Cmd{Kind: "register", Node: "n2", Addr: 5 + b.rng.Intn(3)}) }
+		switch {
+		case strings.HasPrefix(t.name, "txn-node") && t.name != "txn-node-cas/foreign-id":
+			t.remove = func(b *run) { b.s(Cmd{Kind: "deregister", Node: "n1"}) }
+		case strings.HasPrefix(t.name, "txn-service"):
+			t.remove = func(b *run) { b.s(Cmd{Kind: "deregister", Node: "n1", Svc: "s1"}) }
+		case strings.HasPrefix(t.name, "txn-check"):
+			t.remove = func(b *run) { b.s(Cmd{Kind: "deregister", Node: "n1", CheckID: "c1"}) }
+		}
+	}
+	return ts
 }
 
 func (b *run) cfgRow(kind, name string) *CfgRow {
 	d := b.im.cdump()
 	for i := range d.Cfg {
-		if d.Cfg[i].Kind == kind && d.Cfg[i].Name == name {
+		if d.Cfg[i].Kind == kind && strings.EqualFold(d.Cfg[i].Name, name) {
 			return &d.Cfg[i]
 		}
 	}
@@ -576,7 +646,49 @@ func cfgTargets() []target {
 			b.c(CCmd{Kind: "cfg-upsert-status-cas", CKind: TR, Name: "r1", Content: cur.Content, Status: 5, Index: cur.M})
 		}
 	}
-	return []target{
+	rpcCond := func(kind, name string, diff, invalid uint64) func(b *run, sup uint64, p string) {
+		return func(b *run, sup uint64, p string) {
+			wantKind, wantName = kind, name
+			cur := b.cfgRow(kind, name)
+			wantContent, wantStatus = diff, 0
+			c := CCmd{Kind: "rpc-cfg-apply", CAS: true, CKind: kind, Name: name, Index: sup}
+			if cur != nil {
+				wantStatus = cur.Status // the endpoint's upsert never touches the stored status
+			}
+			if p == "same" && cur != nil {
+				wantContent = cur.Content
+				c.Status = cur.Status // resubmitting the entry exactly as it was read
+			}
+			if p == "invalid" {
+				wantContent = invalid
+			}
+			if p == "different" && cur != nil && cur.Content == wantContent {
+				wantContent = 4 - wantContent // keep "different" different (1 <-> 3, both http-like)
+			}
+			c.Content = wantContent
+			b.payloadEqual = cur != nil && cur.Content == c.Content && cur.Status == c.Status
+			b.c(c)
+		}
+	}
+	ts := []target{
+		{name: "rpc-cfg-apply-cas/service-defaults", family: "cas", kind: "upsert", payloads: []string{"same", "different", "invalid"},
+			setup: mkSetup(SD, "web", 1, 3, nil, withRouter), cur: curOf(SD, "web"), reflects: refl, cond: rpcCond(SD, "web", 1, 2)},
+		// (no rpc-cfg-apply target for tcp-route: for kinds with a Status the endpoint's DeepEqual also sees
+		// the stored Hash, which is stale after a plain upsert inherited the status -- not modelled)
+		{name: "rpc-cfg-delete-cas/service-defaults", family: "cas", kind: "delete", payloads: []string{"same", "invalid"},
+			setup: mkSetup(SD, "web", 1, 3, nil, withRouter), cur: curOf(SD, "web"), reflects: gone(SD, "web"),
+			cond: func(b *run, sup uint64, p string) {
+				b.c(CCmd{Kind: "rpc-cfg-delete", CAS: true, CKind: SD, Name: "web", Index: sup})
+			}},
+		{name: "rpc-cfg-delete-cas/tcp-route", family: "cas", kind: "delete", payloads: []string{"same"},
+			setup: mkSetup(TR, "r1", 1, 2, nil, statusOn), cur: curOf(TR, "r1"), reflects: gone(TR, "r1"),
+			cond: func(b *run, sup uint64, p string) {
+				b.c(CCmd{Kind: "rpc-cfg-delete", CAS: true, CKind: TR, Name: "r1", Index: sup})
+			}},
+		// the name differs only in case from the stored one: the table's id index folds names
+		{nocoq: true, name: "cfg-upsert-cas/mixed-case", family: "cas", kind: "upsert", payloads: []string{"same", "different"},
+			setup: mkSetup(SD, "web", 1, 3, nil, nil), cur: curOf(SD, "web"), reflects: refl,
+			cond: upsertCond(SD, "Web", "cfg-upsert-cas", 1, 2)},
 		{name: "cfg-upsert-cas/service-defaults", family: "cas", kind: "upsert", payloads: []string{"same", "different", "invalid"},
 			setup: mkSetup(SD, "web", 1, 3, nil, withRouter), cur: curOf(SD, "web"), reflects: refl,
 			cond: upsertCond(SD, "web", "cfg-upsert-cas", 1, 2)},
@@ -599,6 +711,19 @@ func cfgTargets() []target {
 			setup: mkSetup(TR, "r1", 1, 2, nil, statusOn), cur: curOf(TR, "r1"), reflects: gone(TR, "r1"),
 			cond: func(b *run, sup uint64, p string) { b.c(CCmd{Kind: "cfg-delete-cas", CKind: TR, Name: "r1", Index: sup}) }},
 	}
+	for i := range ts {
+		t := &ts[i]
+		t.sibling = func(b *run) { ups(b, SD, "api", uint64(b.rng.Intn(4))) }
+		switch {
+		case strings.Contains(t.name, "tcp-route"):
+			t.remove = func(b *run) { del(b, TR, "r1") }
+		case strings.Contains(t.name, "service-router"):
+			t.remove = func(b *run) { del(b, SR, "web") }
+		default:
+			t.remove = func(b *run) { del(b, SD, "web") }
+		}
+	}
+	return ts
 }
 
 func rootsIndex(d *CDump) uint64 {
@@ -952,10 +1077,12 @@ func singletonTargets() []target {
 				return ""
 			}},
 		{name: "acl-token-set-cas", family: "cas", kind: "upsert", payloads: []string{"same", "different", "invalid"}, setup: tokSetup, cur: tokCur, reflects: tokRefl,
+			remove:  func(b *run) { b.c(CCmd{Kind: "token-delete", Accs: []string{tk1}}) },
+			sibling: func(b *run) { b.c(CCmd{Kind: "token-set", Tokens: []TokReq{{Accessor: tk0, Secret: "s-t0", Descr: uint64(2 + b.rng.Intn(3))}}}) },
 			cond: func(b *run, sup uint64, p string) {
 				b.c(CCmd{Kind: "token-set", CAS: true, Tokens: []TokReq{tokReq(b, sup, p)}})
 			}},
-		{name: "acl-token-set-cas-batch", family: "cas", kind: "upsert", payloads: []string{"same", "different", "invalid"}, setup: tokSetup, cur: tokCur, reflects: tokRefl,
+		{batch: true, name: "acl-token-set-cas-batch", family: "cas", kind: "upsert", payloads: []string{"same", "different", "invalid"}, setup: tokSetup, cur: tokCur, reflects: tokRefl,
 			cond: func(b *run, sup uint64, p string) {
 				var other TokReq
 				if t2 := tokRow(b, tk2); t2 != nil {
@@ -1096,8 +1223,14 @@ func pickIndex(b *run, class string, present bool, cur, stale uint64) uint64 {
 }
 
 func (b *run) conditional(t *target, pre, class, payload string, stale uint64) Obs {
+	if class == "sibling" && t.sibling != nil {
+		t.sibling(b) // another entity of the table now carries the table's newest index
+	}
 	present, cur := t.cur(b)
 	sup := pickIndex(b, class, present, cur, stale)
+	if class == "sibling" {
+		sup = b.idx
+	}
 	var before CDump
 	if t.family == "cas" {
 		before = b.im.cdump()
@@ -1112,6 +1245,7 @@ func (b *run) conditional(t *target, pre, class, payload string, stale uint64) O
 	default:
 		matched = present && sup == cur
 	}
+	b.payloadEqual = false
 	t.cond(b, sup, payload)
 	var cls string
 	var rep, isErr bool
@@ -1121,7 +1255,7 @@ func (b *run) conditional(t *target, pre, class, payload string, stale uint64) O
 		cls, rep, isErr = cClass(b.lastCRes)
 	}
 	o := Obs{Step: b.nsteps() - 1, Target: t.name, Pre: pre, IdxClass: class, Payload: payload, Supplied: sup, Present: present, Current: cur,
-		Matched: matched, Reported: rep, Result: cls, Changed: b.im.fingerprint() != fp0}
+		Matched: matched, Reported: rep, Result: cls, Changed: b.im.fingerprint() != fp0, PayloadEqual: b.payloadEqual}
 	if rep {
 		o.Effect = t.reflects(b, payload)
 	}
@@ -1141,15 +1275,21 @@ func (b *run) conditional(t *target, pre, class, payload string, stale uint64) O
 		case !present && o.Changed && !t.txn:
 			o.Oracle = "absent-delete-changed"
 		}
+	case !matched && ((t.batch && o.TChanged) || (!t.batch && o.Changed)):
+		// judged before (and independently of) what was reported: a mismatch must leave everything alone
+		o.Oracle = "mismatch-but-changed"
 	case rep && !matched:
 		o.Oracle = "reported-without-match"
 	case matched && !rep && !isErr:
 		o.Oracle = "matched-not-applied"
+	case matched && !rep && isErr && payload != "invalid" && pre != "random":
+		// the set-ups of the cross product make every non-"invalid" payload acceptable
+		o.Oracle = "matched-but-error"
 	case !rep && o.Changed:
 		o.Oracle = "failed-but-changed"
 	case rep && o.Effect != "":
 		o.Oracle = "reported-without-effect"
-	case rep && payload == "different" && !o.Changed:
+	case rep && payload == "different" && !o.Changed && !o.PayloadEqual:
 		o.Oracle = "reported-without-effect"
 		o.Effect = "a different payload was accepted but nothing changed"
 	}
@@ -1160,11 +1300,18 @@ func (b *run) conditional(t *target, pre, class, payload string, stale uint64) O
 	if o.Oracle != "" {
 		o.Sig = map[string]any{"kind": o.Oracle, "target": t.name, "pre": pre, "idx": class, "payload": payload, "present": present}
 	}
+	o.nocoq = t.nocoq
 	return o
 }
 
 func (b *run) toCase(id int, mode string, obs []Obs) Case {
+	if obs == nil {
+		obs = []Obs{}
+	}
 	c := Case{ID: id, Family: b.family, Mode: mode, Obs: obs}
+	for _, o := range obs {
+		c.NoCoq = c.NoCoq || o.nocoq
+	}
 	if b.family == "store" {
 		d := b.im.dump()
 		c.Cmds, c.Results, c.Final = b.cmds, b.results, &d
@@ -1189,7 +1336,106 @@ func allTargets() []target {
 }
 
 var pres = []string{"absent", "present", "recreated"}
-var classes = []string{"zero", "current", "stale", "future"}
+var classes = []string{"zero", "current", "stale", "future", "sibling"}
+var classes2 = []string{"zero", "current", "stale", "future"} // per expected index of the two-index commands
+
+// ---------------------------------------------------------------- transaction shapes
+
+// txnShapeCases: transactions of several operations in which the conditional operation is not the
+// first one, or there are two of them, or the condition is a guard verb.  wantCommit is the
+// specification: every conditional operation matches when the operations are read in order, each
+// seeing the writes of its predecessors.
+func txnShapeCases(id *int, rng *rand.Rand, emit func(Case)) {
+	type shape struct {
+		name       string
+		ops        func(ia, ib, in1 uint64) []TxnOp
+		wantCommit bool
+		reflect    func(b *run) string
+	}
+	kvOp := func(verb, key string, val byte, idx uint64) TxnOp { return TxnOp{Kind: "kv", Verb: verb, KV: kvq(key, val, idx)} }
+	holds := func(key string, val byte) func(b *run) string {
+		return func(b *run) string {
+			if e := b.kvGet(key); e == nil || len(e.Value) != 1 || e.Value[0] != val {
+				return "key " + key + " does not hold the requested value"
+			}
+			return ""
+		}
+	}
+	both := func(fs ...func(b *run) string) func(b *run) string {
+		return func(b *run) string {
+			for _, f := range fs {
+				if m := f(b); m != "" {
+					return m
+				}
+			}
+			return ""
+		}
+	}
+	nodeAddr := func(addr int) func(b *run) string {
+		return func(b *run) string {
+			if _, n, _ := b.im.store().GetNode("n1", nil, ""); n == nil || addrNum(n.Address) != addr {
+				return "node n1 does not carry the requested address"
+			}
+			return ""
+		}
+	}
+	shapes := []shape{
+		{"set-then-cas-old-index", func(ia, ib, in1 uint64) []TxnOp { return []TxnOp{kvOp("set", "a", 7, 0), kvOp("cas", "a", 8, ia)} }, false, nil},
+		{"set-same-then-cas-old-index", func(ia, ib, in1 uint64) []TxnOp { return []TxnOp{kvOp("set", "a", 2, 0), kvOp("cas", "a", 8, ia)} }, true, holds("a", 8)},
+		{"cas-ok-then-cas-stale", func(ia, ib, in1 uint64) []TxnOp { return []TxnOp{kvOp("cas", "a", 8, ia), kvOp("cas", "b", 8, ib+1)} }, false, nil},
+		{"cas-ok-then-check-index-stale", func(ia, ib, in1 uint64) []TxnOp {
+			return []TxnOp{kvOp("cas", "a", 8, ia), kvOp("check-index", "b", 0, ib-1)}
+		}, false, nil},
+		{"cas-ok-then-check-not-exists-present", func(ia, ib, in1 uint64) []TxnOp {
+			return []TxnOp{kvOp("cas", "a", 8, ia), kvOp("check-not-exists", "b", 0, 0)}
+		}, false, nil},
+		{"set-then-cas-last-ok", func(ia, ib, in1 uint64) []TxnOp { return []TxnOp{kvOp("set", "t", 9, 0), kvOp("cas", "a", 8, ia)} }, true, both(holds("t", 9), holds("a", 8))},
+		{"cas-ok-then-cas-ok", func(ia, ib, in1 uint64) []TxnOp { return []TxnOp{kvOp("cas", "a", 8, ia), kvOp("cas", "b", 6, ib)} }, true, both(holds("a", 8), holds("b", 6))},
+		{"guards-then-cas-ok", func(ia, ib, in1 uint64) []TxnOp {
+			return []TxnOp{kvOp("check-index", "a", 0, ia), kvOp("check-not-exists", "zz", 0, 0), kvOp("cas", "b", 6, ib)}
+		}, true, holds("b", 6)},
+		{"cas-twice-same-key-second-sees-first", func(ia, ib, in1 uint64) []TxnOp { return []TxnOp{kvOp("cas", "a", 8, ia), kvOp("cas", "a", 6, ia)} }, false, nil},
+		{"delete-cas-then-create-if-absent", func(ia, ib, in1 uint64) []TxnOp { return []TxnOp{kvOp("delete-cas", "a", 0, ia), kvOp("cas", "a", 6, 0)} }, true, holds("a", 6)},
+		{"kv-set-then-node-cas-stale", func(ia, ib, in1 uint64) []TxnOp {
+			return []TxnOp{kvOp("set", "t", 9, 0), {Kind: "node", Verb: "cas", Node: "n1", ID: id1, Addr: 9, Index: in1 - 1}}
+		}, false, nil},
+		{"node-cas-ok-then-service-cas-stale", func(ia, ib, in1 uint64) []TxnOp {
+			return []TxnOp{{Kind: "node", Verb: "cas", Node: "n1", ID: id1, Addr: 9, Index: in1},
+				{Kind: "service", Verb: "cas", Node: "n1", Svc: "s1", Name: "web", Port: 99, Index: 1}}
+		}, false, nil},
+		{"node-cas-ok-then-kv-cas-ok", func(ia, ib, in1 uint64) []TxnOp {
+			return []TxnOp{{Kind: "node", Verb: "cas", Node: "n1", ID: id1, Addr: 9, Index: in1}, kvOp("cas", "a", 8, ia)}
+		}, true, both(nodeAddr(9), holds("a", 8))},
+	}
+	for _, sh := range shapes {
+		b := newRun(rng, "store", false)
+		b.s(Cmd{Kind: "kvs", Verb: "set", KV: kvq("a", 1, 0)})
+		b.s(Cmd{Kind: "kvs", Verb: "set", KV: kvq("b", 1, 0)})
+		b.s(Cmd{Kind: "kvs", Verb: "set", KV: kvq("a", 2, 0)})
+		b.s(Cmd{Kind: "register", Node: "n1", ID: id1, Addr: 1, HasSvc: true, Svc: "s1", SvcName: "web", Port: 80,
+			RegCheck: []CheckReq{{Node: "n1", ID: "serfHealth", Status: 0}}})
+		ia, ib := b.kvGet("a").ModifyIndex, b.kvGet("b").ModifyIndex
+		_, n1, _ := b.im.store().GetNode("n1", nil, "")
+		fp0 := b.im.fingerprint()
+		b.s(Cmd{Kind: "txn", Ops: sh.ops(ia, ib, n1.ModifyIndex)})
+		cls, rep, _ := sClass(b.lastSRes)
+		o := Obs{Step: b.nsteps() - 1, Target: "txn-shape/" + sh.name, Pre: "present", IdxClass: "shape", Payload: "different",
+			Present: true, Matched: sh.wantCommit, Reported: rep, Result: cls, Changed: b.im.fingerprint() != fp0}
+		switch {
+		case !sh.wantCommit && o.Changed:
+			o.Oracle = "mismatch-but-changed"
+		case rep && !sh.wantCommit:
+			o.Oracle = "reported-without-match"
+		case !rep && sh.wantCommit:
+			o.Oracle = "matched-not-applied"
+		case rep && sh.reflect != nil && sh.reflect(b) != "":
+			o.Oracle = "reported-without-effect"
+			o.Effect = sh.reflect(b)
+		}
+		emit(b.toCase(*id, "txn-shape", []Obs{o}))
+		*id++
+	}
+}
 
 // ---------------------------------------------------------------- random histories
 
@@ -1197,7 +1443,7 @@ func randomCase(id int, rng *rand.Rand, family string, n int) Case {
 	b := newRun(rng, family, false)
 	var ts []target
 	for _, t := range allTargets() {
-		if t.family == family {
+		if t.family == family && !t.nocoq {
 			ts = append(ts, t)
 		}
 	}
@@ -1221,7 +1467,35 @@ func randomCase(id int, rng *rand.Rand, family string, n int) Case {
 			}
 			return
 		}
-		switch rng.Intn(9) {
+		switch rng.Intn(11) {
+		case 9: // the composite on an accumulated state; each expected index current (2/3) or off by one
+			d := b.im.cdump()
+			ri, ci := rootsIndex(&d), uint64(0)
+			if d.CAConfig != nil {
+				ci = d.CAConfig.M
+			}
+			if rng.Intn(3) == 0 {
+				ri++
+			}
+			if rng.Intn(3) == 0 {
+				ci++
+			}
+			b.c(CCmd{Kind: "ca-set-roots-config", Index: ri, CfgIndex: ci, Cluster: []string{"", "c3"}[rng.Intn(2)], Provider: uint64(rng.Intn(3)),
+				Roots: []RootReq{{ID: "r1", Active: rng.Intn(2) == 0}, {ID: "r4", Active: rng.Intn(2) == 0}}})
+		case 10: // a feature-gate update on an accumulated state
+			d := b.im.cdump()
+			c := CCmd{Kind: "feature-gate", HasPolicy: rng.Intn(2) == 0, Policy: uint64(rng.Intn(3)), HasStatus: rng.Intn(8) > 0, FGStatus: uint64(rng.Intn(3))}
+			if d.FGPolicy != nil {
+				c.EPI = d.FGPolicy.M
+			}
+			if d.FGStatus != nil {
+				c.ESI = d.FGStatus.M
+			}
+			if rng.Intn(4) == 0 {
+				c.EPI += uint64(rng.Intn(2))
+				c.ESI += uint64(1 - rng.Intn(2))
+			}
+			b.c(c)
 		case 0:
 			b.c(CCmd{Kind: "cfg-upsert", CKind: structs.ServiceDefaults, Name: "web", Content: uint64(rng.Intn(4))})
 		case 1:
@@ -1259,7 +1533,7 @@ func randomCase(id int, rng *rand.Rand, family string, n int) Case {
 			continue
 		}
 		t := &ts[rng.Intn(len(ts))]
-		class := classes[[]int{0, 1, 1, 1, 2, 2, 3}[rng.Intn(7)]]
+		class := classes[[]int{0, 1, 1, 1, 2, 2, 3, 4}[rng.Intn(8)]]
 		payload := t.payloads[rng.Intn(len(t.payloads))]
 		_, cur := t.cur(b)
 		o := b.conditional(t, "random", class, payload, seen[t.name])
@@ -1340,11 +1614,21 @@ func main() {
 	// 1. the cross product, each case on a fresh store
 	for _, t := range allTargets() {
 		t := t
-		for _, pre := range pres {
+		for _, pre := range []string{"absent", "present", "recreated", "deleted"} {
 			for _, class := range classes {
 				for _, payload := range t.payloads {
 					b := newRun(rng, t.family, true)
-					stale := t.setup(b, pre, payload)
+					var stale uint64
+					if pre == "deleted" { // existed, now gone; the index it last carried is the stale one
+						if t.remove == nil {
+							continue
+						}
+						t.setup(b, "present", payload)
+						_, stale = t.cur(b)
+						t.remove(b)
+					} else {
+						stale = t.setup(b, pre, payload)
+					}
 					o := b.conditional(&t, pre, class, payload, stale)
 					emit(b.toCase(id, "cross", []Obs{o}))
 					id++
@@ -1353,8 +1637,8 @@ func main() {
 		}
 	}
 	for _, pre := range []string{"absent", "present", "recreated", "roots-only", "config-only"} {
-		for _, rc := range classes {
-			for _, cc := range classes {
+		for _, rc := range classes2 {
+			for _, cc := range classes2 {
 				for _, payload := range []string{"same", "different", "invalid"} {
 					emit(compositeCase(id, rng, pre, rc, cc, payload))
 					id++
@@ -1363,8 +1647,8 @@ func main() {
 		}
 	}
 	for _, pre := range pres {
-		for _, pc := range classes {
-			for _, sc := range classes {
+		for _, pc := range classes2 {
+			for _, sc := range classes2 {
 				for _, payload := range []string{"same", "different", "status-only", "invalid"} {
 					emit(featureGateCase(id, rng, pre, pc, sc, payload))
 					id++
@@ -1372,6 +1656,7 @@ func main() {
 			}
 		}
 	}
+	txnShapeCases(&id, rng, emit)
 	// 2. random histories on an accumulated state
 	n := *count
 	if n < 0 {
